@@ -16,7 +16,7 @@ import (
 
 func init() {
 	register(&Prop{ID: "C02", Run: runC02, MinNontrivial: 500,
-		Rule:        "cases = (kind: signed SSO Response, signed assertion under an unsigned Response, bad Response signature over well-signed assertions, LogoutRequest, LogoutResponse) x (signer: store member i of n, untrusted key, trusted certificate with foreign key, same key under another certificate, KeyInfo absent) x (store: 0-3 certificates, RSA/ECDSA, signer's certificate present or not) x (SP clock at NotBefore-1s, NotBefore+1s, middle, NotAfter-1s, NotAfter+1s of the signing certificate) x (tamper: none, signed text altered, signed attribute altered); oracle: signature honoured iff certificate in store and key matches and window contains the injected now and untampered and (KeyInfo present or store size 1); a present but bad signature is an error, never 'accepted unflagged'; evidence counts clock reads whose stack contains verifyCertificate; non-trivial = reached signature processing; distinct by parameter tuple; also stores holding a renewed certificate over the same key, and a store-rollover class (outgoing + incoming certificate in a stock memory store, one SP, clock moving across the hand-over; the store must stay as configured); tamper sig-nested (own signature moved into an Extensions child); same-subject roll-over stores; store members with odd key-usage profiles; KeyInfo-less messages and doubled entries in the store-rollover class; tamper sigmethod-swapped (registered and unknown SignatureMethod / DigestMethod identifiers); stores listing Ed25519 certificates beside the one usable member; tamper repeated-id (a second ID attribute in front of the signed element's own)",
+		Rule:        "cases = (kind: signed SSO Response, signed assertion under an unsigned Response, bad Response signature over well-signed assertions, LogoutRequest, LogoutResponse) x (signer: store member i of n, untrusted key, trusted certificate with foreign key, same key under another certificate, KeyInfo absent) x (store: 0-3 certificates, RSA/ECDSA, signer's certificate present or not) x (SP clock at NotBefore-1s, NotBefore+1s, middle, NotAfter-1s, NotAfter+1s of the signing certificate) x (tamper: none, signed text altered, signed attribute altered); oracle: signature honoured iff certificate in store and key matches and window contains the injected now and untampered and (KeyInfo present or store size 1); a present but bad signature is an error, never 'accepted unflagged'; evidence counts clock reads whose stack contains verifyCertificate; non-trivial = reached signature processing; distinct by parameter tuple; also stores holding a renewed certificate over the same key, and a store-rollover class (outgoing + incoming certificate in a stock memory store, one SP, clock moving across the hand-over; the store must stay as configured); tamper sig-nested (own signature moved into an Extensions child); same-subject roll-over stores; store members with odd key-usage profiles; KeyInfo-less messages and doubled entries in the store-rollover class; tamper sigmethod-swapped (registered and unknown SignatureMethod / DigestMethod identifiers); stores listing Ed25519 certificates beside the one usable member; KeyInfo that names the signer's certificate (SKI, issuer and serial, subject name, key name) without carrying it; tamper repeated-id (a second ID attribute in front of the signed element's own)",
 		Assumptions: []string{"exact NotBefore/NotAfter instants are not probed (X.509 validity is inclusive; the property says inside)", "wall time is decades away from every certificate window"}})
 }
 
@@ -177,6 +177,9 @@ func runC02(c *mon.Ctx) {
 		}
 		spec := randSigSpec(r, signCert, true, sg == "no-keyinfo" || mixedNoKI)
 		spec.Key = signKey
+		if spec.NoKeyInfo && r.IntN(2) == 0 {
+			spec.NameOnly = true // the certificate is named (key identifier, issuer and serial, subject) but not carried
+		}
 		spec.NSCharRef = r.IntN(4) == 0 // the XML-DSig namespace URI spelled with a character reference everywhere
 		honour := inStore && signKey == signCert.Key && (clk.inside || alwaysInside) && tamper == "none" && sg != "same-key-other-cert" && sg != "untrusted"
 		if sg == "no-keyinfo" || mixedNoKI {
@@ -359,6 +362,10 @@ func runC02(c *mon.Ctx) {
 			c.Count("clock_reads_in_verifyCertificate", 1)
 		}
 		switch {
+		case honour && spec.NameOnly && !accepted:
+			// a KeyInfo that names the certificate without carrying it may be refused as incomplete; honouring it is
+			// right only against a store of exactly one (which "honour" already says)
+			cs.Outcome("name-only-keyinfo-refused")
 		case honour && (!accepted || !flagged):
 			cs.Outcome("trusted-not-honoured")
 			cs.Violation("trusted-signature-not-honoured:"+kind, "a signature by store member (clock %s inside the window, untampered) was not honoured: accepted=%v flagged=%v err=%v", clk.name, accepted, flagged, rerr)
